@@ -1694,6 +1694,15 @@ impl Machine {
     pub fn execute_main(&mut self) -> ReturnCode {
         // 0 is always base pointer to the main function
         self.base_pointer += 1;
+        // Stateful calls made while evaluating global definitions use the global state storage too.
+        // Only grow it: after a hot swap it already holds the migrated state of dsp.
+        let main_state_size = self
+            .prog
+            .global_fn_table
+            .first()
+            .map_or(0, |(_, f)| f.state_skeleton.total_size() as usize);
+        let size = main_state_size.max(self.global_states.rawdata.len());
+        self.global_states.resize(size);
         self.execute(0, None)
     }
 }
